@@ -30,17 +30,18 @@ type PropConfig struct {
 }
 
 type Run struct {
-	e        *Engine
-	cfg      *PropConfig
-	tier     Tier
-	repo     string
-	verif    string
-	workdir  string
-	seed     int
-	t0       time.Time
-	corpus   *Corpus
-	bounded  []map[string]interface{}
-	extraCov map[string]interface{}
+	e           *Engine
+	cfg         *PropConfig
+	tier        Tier
+	repo        string
+	verif       string
+	workdir     string
+	seed        int
+	t0          time.Time
+	corpus      *Corpus
+	replayCache map[string]*ReplayResult
+	bounded     []map[string]interface{}
+	extraCov    map[string]interface{}
 }
 
 func main() {
@@ -295,6 +296,12 @@ func (r *Run) report(updateLock, verbose, noEvidence bool) int {
 	}
 	fmt.Printf("govc %s %s: %d functions under contract, %d obligations, %d discharged, %d cover queries, %d failures (%d known), %.1fs\n",
 		r.cfg.ID, r.tier.Name, len(e.verified), total, discharged, len(e.obls)-total, len(failures), len(knownHit), time.Since(r.t0).Seconds())
+	if updateLock && len(viol) > 0 {
+		// record the unreachable exits of the reference tree even while other obligations still fail
+		lock[r.cfg.ID+"#dead-exits"] = deadNames
+		data, _ := json.MarshalIndent(lock, "", " ")
+		os.WriteFile(lockPath, append(data, '\n'), 0o644)
+	}
 	if updateLock && len(viol) == 0 {
 		var ns []string
 		seen := map[string]bool{}
@@ -559,7 +566,12 @@ func loadKnownFindings(path, prop string) knownSet {
 
 func (ks knownSet) match(f *Failure) *knownFinding {
 	for i := range ks {
-		if ks[i].Obligation == f.Name {
+		pat := ks[i].Obligation
+		if pat == f.Name {
+			return &ks[i]
+		}
+		// a trailing * matches the obligations of one function / call site family
+		if strings.HasSuffix(pat, "*") && strings.HasPrefix(f.Name, strings.TrimSuffix(pat, "*")) {
 			return &ks[i]
 		}
 	}
